@@ -303,6 +303,30 @@ the global state is the five registries + once flag; every entry point initialis
 theorem tie_lock_sites : ∀ s ∈ EE.Gen.lockSites, s.otherCalls = [] ∧ s.nestedLocks = 0 := EE.Tie.no_call_under_lock
 theorem tie_entries : ∀ e ∈ EE.Gen.entryPoints, e.2.2 = true → e.2.1 = true := EE.Tie.entries_init_first
 
+/-- Tie: each registration function is a single critical section (the `insert` step of the model is one
+atomic step), and only the six writer functions modify a map under its guard. -/
+theorem tie_writers_atomic :
+    ∀ w ∈ EE.Tie.lockWriters, (EE.Gen.lockSites.filter (fun s => s.func = w)).length = 1 ∧
+      ∀ s ∈ EE.Gen.lockSites, s.func = w → s.mutates = true := EE.Tie.writers_single_critical_section
+
+/-- Why that obligation is needed: were a re-registration two critical sections — remove the old entry,
+then insert the new one — the state between them would answer "not registered" for a name that is
+registered before *and* after, a reading no sequential order of the calls allows. -/
+theorem two_step_registration_window (regs : List (Nat × Nat)) (k : Nat) :
+    lookup k (regs.filter (fun e => e.1 ≠ k)) = none := by
+  induction regs with
+  | nil => rfl
+  | cons e r ih =>
+    by_cases h : e.1 = k
+    · have : (decide (e.1 ≠ k)) = false := by simp [h]
+      simp only [List.filter, this]
+      exact ih
+    · have : (decide (e.1 ≠ k)) = true := by simp [h]
+      simp only [List.filter, this, lookup, h, if_false]
+      exact ih
+example : lookup 7 [(7, 1)] = some 1 ∧ lookup 7 ([(7, 1)].filter (fun e => e.1 ≠ 7)) = none ∧
+    lookup 7 ((7, 2) :: [(7, 1)].filter (fun e => e.1 ≠ 7)) = some 2 := by decide
+
 /-! Non-vacuity: a reachable state in which two threads are past init and one is mid-evaluation. -/
 example : (run (init mrPrograms) mrSchedule).once = .done := by decide
 
